@@ -205,6 +205,26 @@ def must_accept_variants(spec):
     yield "first-last-unordered(middle listed last)", s5, False
 
 
+def independent_gates_cases():
+    """Two producers of one name, each a branch of a DIFFERENT, independent gate: not exclusive (both can run in one
+    run), whichever branch position each sits in. Yields (label, spec, must_accept)."""
+    for kind in ("ifelse", "route"):
+        for s1 in ("t1", "f1"):
+            for s2 in ("t2", "f2"):
+                for repaired in (False, True):
+                    outs = {"t1": "o_t1", "f1": "o_f1", "t2": "o_t2", "f2": "o_f2"}
+                    outs[s1] = "x"
+                    outs[s2] = "x2" if repaired else "x"
+                    if kind == "ifelse":
+                        gates = [{"k": "ifelse", "name": "g1", "params": [{"n": "p"}], "t": "t1", "f": "f1", "table": [True, False]},
+                                 {"k": "ifelse", "name": "g2", "params": [{"n": "q"}], "t": "t2", "f": "f2", "table": [True, False]}]
+                    else:
+                        gates = [{"k": "route", "name": "g1", "params": [{"n": "p"}], "targets": ["t1", "f1"], "table": ["t1", "f1"]},
+                                 {"k": "route", "name": "g2", "params": [{"n": "q"}], "targets": ["t2", "f2"], "table": ["t2", "f2"]}]
+                    nodes = gates + [{"k": "fn", "name": n, "params": [{"n": "p" if n.endswith("1") else "q"}], "outs": [outs[n]]} for n in ("t1", "f1", "t2", "f2")]
+                    yield f"{kind} gates, producers in {s1}/{s2}{' (repaired)' if repaired else ''}", {"name": "g", "nodes": nodes, "bind": {}}, repaired
+
+
 def try_build(spec):
     from hypergraph import GraphConfigError
 
@@ -399,18 +419,35 @@ def check_strict_graphs(ctx, U):
     sample = pairs if ctx.tier == "thorough" and ctx.shard == (0, 1) else rng.sample(pairs, min(len(pairs), 260 if ctx.tier == "quick" else 1500))
     for a, b in sample:
         exp = R(a, b)
-        for nested in (False, True, "renamed-nested-output", "non-first-producer"):
+        for nested in (False, True, "renamed-nested-output", "swapped-nested-outputs", "non-first-producer"):
             rt.reset_program()
-            vname = "val2" if nested == "renamed-nested-output" else "val"
+            vname = "val2" if nested == "renamed-nested-output" else "val_b" if nested == "swapped-nested-outputs" else "val"
             prod = rt.make_function("prod", "t/prod", [{"n": "seed", "ann": int}], ret_ann=a)
             cons = rt.make_function("cons", "t/cons", [{"n": vname, "ann": b}], ret_ann=int)
             p = FunctionNode(prod, name="prod", output_name="val")
             c = FunctionNode(cons, name="cons", output_name="out")
             try:
                 if nested == "renamed-nested-output":
-                    # the producer sits in a nested graph whose output is renamed by the wrapper
+                    # the producer sits in a nested graph whose output is renamed by the wrapper; half of the time
+                    # the wrapper node was already used (its annotations computed) before it is renamed
                     inner = Graph([p], name="inner_t", strict_types=True)
-                    Graph([inner.as_node().with_outputs(val="val2"), c], strict_types=True)
+                    gn = inner.as_node()
+                    if rng.random() < 0.5:
+                        Graph([gn], strict_types=True)
+                        gn.get_output_type("val")
+                    Graph([gn.with_outputs(val="val2"), c], strict_types=True)
+                elif nested == "swapped-nested-outputs":
+                    # two outputs swap their names on the wrapper: the consumer of 'val_b' receives the inner 'val'
+                    class _Other:
+                        pass
+
+                    p2 = FunctionNode(rt.make_function("prod2", "t/prod2", [{"n": "seed", "ann": int}], ret_ann=_Other), name="prod2", output_name="val_b")
+                    inner = Graph([p, p2], name="inner_t", strict_types=True)
+                    gn = inner.as_node()
+                    if rng.random() < 0.5:
+                        Graph([gn], strict_types=True)
+                        gn.get_output_type("val_b")
+                    Graph([gn.with_outputs(val="val_b", val_b="val"), c], strict_types=True)
                 elif nested == "non-first-producer":
                     # two exclusive branches produce the value; the one under test is listed second,
                     # the first one has exactly the consumer's type
@@ -466,6 +503,17 @@ def run(ctx):
     if ctx.shard[0] == 0:
         U = check_types(ctx)
         check_strict_graphs(ctx, U)
+        for label, spec, ok in independent_gates_cases():
+            st, e = try_build(spec)
+            ctx.obs["flaws_injected" if not ok else "must_accept_checked"] += 1
+            case = {"flawed": spec, "flaw": "duplicate-producer-under-independent-gates", "position": label}
+            if ok and st != "accepted":
+                ctx.violation("C19:valid-graph-rejected:independent-gates", f"{label}: rejected: {e!r}", case)
+            elif not ok and st == "accepted":
+                ctx.violation("C19:flaw-accepted:duplicate-producer-under-independent-gates", f"{label}: two producers of 'x' that can both run were accepted", case)
+            elif not ok and st == "other-error":
+                ctx.violation("C19:flaw-wrong-error:duplicate-producer-under-independent-gates", f"{label}: raised {e!r}", case)
+        ctx.case({"directed": "independent-gates"}, True)
     for i in range(n):
         rng = ctx.rng
         r = rng.random()
